@@ -35,6 +35,27 @@ def program_multi(bodies):
     return s
 
 
+def expected_shape(body):
+    """the statement shape the parser must build for a generated body (harness/src/shape.rs syntax): the model is
+    fed with what the real parser built, so a parser that loses or misplaces a label or a goto is only visible here"""
+    def st(x):
+        k = x[0]
+        if k == 'label': return "(L %s)" % x[1]
+        if k == 'goto': return "(G %s)" % x[1]
+        if k == 'cgoto': return "(I (r) (G %s))" % x[1]
+        if k == 'assign': return "(A (r r))"
+        if k == 'block': return "(B %s)" % " ".join(st(y) for y in x[1]) if x[1] else "(B )"
+        if k == 'if':
+            t = "(B %s)" % " ".join(st(y) for y in x[1]) if x[1] else "(B )"
+            if x[2] is None: return "(I (r) %s)" % t
+            e = "(B %s)" % " ".join(st(y) for y in x[2]) if x[2] else "(B )"
+            return "(I (r) %s %s)" % (t, e)
+        if k == 'ifs': return "(I (r) %s)" % st(x[1]) if x[2] is None else "(I (r) %s %s)" % (st(x[1]), st(x[2]))
+        raise ValueError(k)
+    inner = " ".join(st(x) for x in body)
+    return "((C ) (F () (D r ())%s (L return) (R (r))))" % (" " + inner if inner else "")
+
+
 def run(tier):
     ck = C.Check("C04", tier)
     proof_ok = ck.prove()
@@ -57,9 +78,15 @@ def run(tier):
     distinct = set()
     mism = 0
     srcmap = dict(srcs)
+    want_shape = {"%s%d" % (k, i): expected_shape(b) for i, (k, b) in enumerate(bodies)}
     for cid, src in srcs:
         f = impl.get(cid, ["missing"])
         verdict = f[0]
+        if cid in want_shape and len(f) >= 2 and f[1].startswith("(") and f[1] != want_shape[cid]:
+            mism += 1
+            ck.violation("parsed-shape-differs", "the parser builds another statement tree than the source says (labels, gotos and blocks of the body)",
+                         "source:\n%s\nparsed  : %s\nexpected: %s" % (src, f[1], want_shape[cid]))
+            continue
         m = model.get(cid, "MODEL-MISSING")
         if verdict.startswith("ok"):
             real = "[]"
